@@ -4,7 +4,7 @@ from __future__ import annotations
 import ast
 from typing import List, Optional, Tuple
 
-from ..an import avoiding_path, cut, is_method_call
+from ..an import avoiding_path, cut, flows_from_calls, is_method_call, value_alts
 from ..cfg import calls_at
 from ..core import Checker
 from ..effects import destructive_kind
@@ -70,17 +70,27 @@ def _check_base(ck: Checker, rule: str = "C07.check") -> None:
     ck.require(a_name is not None and norm(a_name) == "self.hash_name", rule, fn, hn, "hashes with the store's algorithm",
                "the integrity check does not hash with the store's own algorithm", construct="hash_file(...) / algorithm")
 
-    # the comparison
+    # the comparison (operands resolved through local aliases, flow-sensitively)
+    def side_info(t, e):
+        kind, nrm_any = None, False
+        for alt in value_alts(g, t, e, depth=3):
+            base, nrm = strip_norm(alt)
+            nrm_any = nrm_any or nrm
+            for b2 in value_alts(g, t, base, depth=3):
+                b3, nrm2 = strip_norm(b2)
+                nrm_any = nrm_any or nrm2
+                if norm(b3) == "oid" and fn.has_param("oid"):
+                    kind = kind or "oid"
+                elif flows_from_calls(g, t, b3, [hc]):
+                    kind = kind or "actual"
+        return kind, nrm_any
+
     cmps = []
     for t in g.nodes.values():
         e = t.ast
         if t.kind == "test" and isinstance(e, ast.Compare) and len(e.ops) == 1 and isinstance(e.ops[0], (ast.Eq, ast.NotEq)):
-            l, ln = strip_norm(e.left)
-            r, rn = strip_norm(e.comparators[0])
-            sides = [(l, ln), (r, rn)]
-            is_actual = [refers_to_call(fn, s, [hc]) for s, _ in sides]
-            is_oid = [norm(s) == "oid" and fn.has_param("oid") for s, _ in sides]
-            if (is_actual[0] and is_oid[1]) or (is_actual[1] and is_oid[0]):
+            (k1, ln), (k2, rn) = side_info(t, e.left), side_info(t, e.comparators[0])
+            if {k1, k2} == {"oid", "actual"}:
                 cmps.append((t, ln, rn, isinstance(e.ops[0], ast.NotEq)))
     if not cmps:
         ck.fail(rule, fn, hn, "no comparison between the recomputed hash and the requested oid was found")
@@ -179,9 +189,9 @@ def _check_local(ck: Checker, rule: str = "C07.localtrust") -> None:
             return False
         if not isinstance(e.ops[0], (ast.Eq, ast.NotEq)):
             return False
-        sides = [norm(e.left), norm(e.comparators[0])]
+        sides = [" | ".join(norm(a) for a in value_alts(g, t, x, depth=3)) for x in (e.left, e.comparators[0])]
         has_mode = any("S_IMODE(" in s and "mode" in s for s in sides)
-        has_const = any(s in ("self.CACHE_MODE", "type(self).CACHE_MODE", "LocalHashFileDB.CACHE_MODE") for s in sides)
+        has_const = any(any(c_ in s for c_ in ("self.CACHE_MODE", "type(self).CACHE_MODE", "LocalHashFileDB.CACHE_MODE")) for s in sides)
         return has_mode and has_const
 
     for r in trusted:
@@ -194,9 +204,11 @@ def _check_local(ck: Checker, rule: str = "C07.localtrust") -> None:
     for t in g.nodes.values():
         if t.kind == "test" and is_mode_eq(t, "T") or is_mode_eq(t, "F"):
             srcs = []
-            for x in walk_expr(t.ast):
-                if isinstance(x, ast.Subscript) and isinstance(x.value, ast.Name):
-                    srcs += [norm(a) for a in expand(prog, fn, x.value)]
+            for side in (t.ast.left, t.ast.comparators[0]):
+                for alt in value_alts(g, t, side, depth=3):
+                    for x in walk_expr(alt):
+                        if isinstance(x, ast.Subscript) and isinstance(x.value, ast.Name):
+                            srcs += [norm(a) for a in expand(prog, fn, x.value)]
             ok = any("self.oid_to_path(oid)" in s or s == "_info" for s in srcs)
             ck.require(ok, rule, fn, t, "the mode examined is that of the object's own file", f"the mode examined does not come from the object's own path: {srcs}", construct=f"{t.text()} / stat source")
     # is_protected agrees
